@@ -1,8 +1,10 @@
 use std::{
     any::TypeId,
-    hash::Hash,
-    sync::atomic::{AtomicI32, Ordering},
+    hash::{BuildHasher, Hash},
+    sync::atomic::{AtomicI32, AtomicU64, Ordering},
 };
+
+use fxhash::FxBuildHasher;
 
 use crate::{
     kv_database::{KvDatabase, WideColumn, WideColumnValue},
@@ -36,6 +38,14 @@ pub struct WideColumnCache<
     tiny_lfu: TinyLFU<K, Entry<V>, PinnedLifecycleListener>,
     single_flight: single_flight::SingleFlight<K>,
 
+    /// Counts the writes (`insert` / `remove` with `updated`) per group of
+    /// keys. A miss reads the store outside any lock; it may install what it
+    /// read only if no write to its group of keys has started since it found
+    /// the entry missing, otherwise the write may already have been
+    /// committed, unpinned and evicted and the stale read would be installed
+    /// over it.
+    write_counts: Box<[AtomicU64]>,
+
     _phantom: std::marker::PhantomData<T>,
 }
 
@@ -53,8 +63,19 @@ impl<K: Clone + Eq + Hash + Send + Sync + 'static, V: Send + Sync + 'static, T>
             single_flight: single_flight::SingleFlight::new(
                 default_shard_amount(),
             ),
+            write_counts: (0..default_shard_amount())
+                .map(|_| AtomicU64::new(0))
+                .collect(),
             _phantom: std::marker::PhantomData,
         }
+    }
+
+    #[allow(clippy::cast_possible_truncation)]
+    fn write_count(&self, key: &K) -> &AtomicU64 {
+        let hash = FxBuildHasher::default().hash_one(key) as usize;
+
+        // the length is a power of two
+        &self.write_counts[hash & (self.write_counts.len() - 1)]
     }
 }
 
@@ -68,6 +89,11 @@ impl<K: Eq + Hash + Clone + Send + Sync + 'static, V: Send + Sync + 'static, T>
         init: impl Fn() -> Option<V>,
     ) -> Option<U> {
         loop {
+            // must be read before looking for the entry: a write that is
+            // still pending then is found pinned in the cache, and one that
+            // starts later changes the count.
+            let write_count = self.write_count(key).load(Ordering::SeqCst);
+
             // FAST PATH: Check if the value is already cached, return it  if
             // found.
             if let Some(entry) =
@@ -83,10 +109,16 @@ impl<K: Eq + Hash + Clone + Send + Sync + 'static, V: Send + Sync + 'static, T>
 
                     self.tiny_lfu.entry(key.clone(), |entry| match entry {
                         tiny_lfu::Entry::Vacant(vaccant_entry) => {
-                            vaccant_entry.insert(Entry {
-                                value,
-                                pin_count: AtomicI32::new(0),
-                            });
+                            // what was read may be older than a write that
+                            // has come and gone in the meantime: read again
+                            if self.write_count(key).load(Ordering::SeqCst)
+                                == write_count
+                            {
+                                vaccant_entry.insert(Entry {
+                                    value,
+                                    pin_count: AtomicI32::new(0),
+                                });
+                            }
                         }
 
                         tiny_lfu::Entry::Occupied(_) => {
@@ -100,6 +132,10 @@ impl<K: Eq + Hash + Clone + Send + Sync + 'static, V: Send + Sync + 'static, T>
     }
 
     pub fn insert(&self, key: K, value: V, updated: bool) {
+        if updated {
+            self.write_count(&key).fetch_add(1, Ordering::SeqCst);
+        }
+
         let old_value = self.tiny_lfu.entry(key, |e| {
             match e {
                 tiny_lfu::Entry::Vacant(vaccant_entry) => {
@@ -131,6 +167,10 @@ impl<K: Eq + Hash + Clone + Send + Sync + 'static, V: Send + Sync + 'static, T>
     }
 
     pub fn remove(&self, key: &K, updated: bool) {
+        if updated {
+            self.write_count(key).fetch_add(1, Ordering::SeqCst);
+        }
+
         let old_value = self.tiny_lfu.entry(key.clone(), |x| match x {
             tiny_lfu::Entry::Vacant(vaccant_entry) => {
                 // if ran with updated=true, with must create a negative
